@@ -182,6 +182,37 @@ pub fn run(tier: Tier) -> i32 {
         }
     }
 
+    // ---------------------------------------------------------------- header announces 64 MiB dictionary and size: nothing may be set aside beyond the limit
+    {
+        let name = "public/announced-64MiB/absolute-heap";
+        if ctx.may_start(name) {
+            let t0 = Instant::now();
+            let prog = grow(3000);
+            let e = enc::encode(3, 0, 2, 1 << 26, &prog);
+            // baseline: what the decoder needs for an empty stream with the same lc/lp/pb (tables, I/O)
+            let empty = enc::encode(3, 0, 2, 1 << 26, &[]);
+            let c_base = Case::Dec { fmt: Fmt::Lzma, opts: Opts { memlimit: Some(0), ..Opts::default() }, input: Hex(enc::lzma_file(3, 0, 2, 4096, Some(0), &empty.payload)), rd: Rd::default(), sk: Sk::default() };
+            let base_heap = run_case(&c_base).peak_heap;
+            let mut n = 0u64;
+            for declared in [1u64 << 26, u64::MAX - 1] {
+                for m in [0u64, 100, 2999, 3000, 4999] {
+                    let file = enc::lzma_file(3, 0, 2, 1 << 26, Some(declared), &e.payload);
+                    let case = Case::Dec { fmt: Fmt::Lzma, opts: Opts { memlimit: Some(m), ..Opts::default() }, input: Hex(file), rd: Rd::default(), sk: Sk::default() };
+                    let o = run_case(&case);
+                    n += 1;
+                    ctx.eval(1);
+                    ctx.nontriv(1);
+                    ctx.traces.fetch_add(1, Ordering::Relaxed);
+                    // the data ends after 3000 bytes although more is declared: Err either way; what matters is the heap
+                    let allowed = base_heap + 2 * (m as usize) + 2 * o.out.0.len() + 4096;
+                    if o.v.is_panic() || o.peak_heap > allowed {
+                        ctx.violation(&case, &format!("header announces dictionary 2^26 and size {}; with limit {} the decoder's peak heap stays within baseline {} + 2*limit + delivered output (allowed {}), measured {}", declared, m, base_heap, allowed, o.peak_heap), &o, None);
+                    }
+                }
+            }
+            ctx.scope_done(name, n, t0, "peak heap measured absolutely against an empty-stream baseline");
+        }
+    }
     // ---------------------------------------------------------------- streaming decoder, all chunkings
     {
         let name = "stream/all-chunkings/limits-around-need";
